@@ -14,23 +14,24 @@ use crate::abs::AbsComp;
 pub struct Flat {
     pub m: BTreeMap<String, i64>,
     pub nonfinite: Vec<String>,
+    /// energies are divided by this before scaling (unit of a scaled run)
+    pub unit: f64,
 }
 
 impl Flat {
     pub fn new() -> Flat {
-        Flat { m: BTreeMap::new(), nonfinite: vec![] }
+        Flat { m: BTreeMap::new(), nonfinite: vec![], unit: 1.0 }
     }
     pub fn put(&mut self, path: String, v: f32, p: i32) {
         if !v.is_finite() {
             self.nonfinite.push(path);
             return;
         }
-        let x = (v as f64) * 10f64.powi(p);
+        let x = (v as f64) / self.unit * 10f64.powi(p);
         let r = x.round();
-        if r.abs() > 2.0e9 {
-            self.nonfinite.push(path);
-            return;
-        }
+        // finite but outside the 32-bit logging range (e.g. a ratio over a near-zero total):
+        // clamped, so that the trace specifications still see an out-of-range value
+        let r = r.clamp(-2.0e9, 2.0e9);
         self.m.insert(path, r as i64);
     }
     fn vec(&mut self, pre: &str, v: &[f32], p: i32) {
@@ -202,14 +203,20 @@ pub fn flat_balance(f: &mut Flat, pre: &str, b: &Balance, p: i32) {
     }
 }
 
-pub fn flat_ep(ep: &EnergyPerformance, p: i32, pm: i32) -> Flat {
+pub fn flat_ep_unit(ep: &EnergyPerformance, p: i32, pm: i32, unit: f64) -> Flat {
     let EnergyPerformance { components: _, wfactors: _, k_exp, arearef, balance_cr, balance, balance_m2, rer, rer_nrb, rer_onst, misc: _ } = ep;
     let mut f = Flat::new();
+    f.unit = unit;
     for b in balance_cr.values() {
         flat_carrier(&mut f, b, p);
     }
     flat_balance(&mut f, "bal", balance, p);
     flat_balance(&mut f, "m2", balance_m2, pm);
+    // ratios are not energies: never divided by the unit
+    f.unit = 1.0;
+    for b in balance_cr.values() {
+        f.vec(&format!("cr.{}.f_match", b.carrier), &b.f_match, 6);
+    }
     f.put("rer".into(), *rer, 6);
     f.put("rer_nrb".into(), *rer_nrb, 6);
     f.put("rer_onst".into(), *rer_onst, 6);
